@@ -110,21 +110,20 @@ func runFeeFunction(r *simcore.Run) {
 	if startVal > 0 {
 		start = fn.Some(chainfee.SatPerKWeight(startVal))
 	}
-	r.Logf("init ceiling=%d confTarget=%d floor=%d start=%d estimator=(%d,%v)", end, ct, floor, startVal, est.answer, est.err)
+	dlog(r, "init ceiling=%d confTarget=%d floor=%d start=%d estimator=(%d,%v)", end, ct, floor, startVal, est.answer, est.err)
 
 	f, err := sweep.NewLinearFeeFunction(chainfee.SatPerKWeight(end), ct, est, start)
 	if err != nil {
 		// Refusing to start is always within the property (nothing is
 		// offered). Only sanity: an error must have a reason the property
 		// text allows for.
-		r.Logf("init failed: %v", err)
+		dlog(r, "init failed: %v", err)
 		r.Count("feefn_init_refused")
 		return
 	}
 	cur := int64(f.FeeRate())
-	r.Logf("start rate %d", cur)
-	callerAbove := startVal > end
-	if callerAbove || end < floor {
+	dlog(r, "start rate %d", cur)
+	if startVal > end || end < floor {
 		// Either the caller asked for more than the ceiling, or the ceiling
 		// (budget over size) is below the relay floor so that "start at the
 		// floor" and "never above the ceiling" cannot both hold: the fee
@@ -133,7 +132,7 @@ func runFeeFunction(r *simcore.Run) {
 		r.Count("probe_feefn_unjudged_domain")
 		return
 	}
-	if cur > end && !callerAbove {
+	if cur > end {
 		r.Fail("feefn-above-ceiling", "initial fee rate %d sat/kw exceeds the ceiling %d (confTarget %d, estimator %d)", cur, end, ct, est.answer)
 	}
 	if ct <= 1 && cur != end {
@@ -194,20 +193,20 @@ func runFeeFunction(r *simcore.Run) {
 			atDL = true
 		}
 		cur = int64(f.FeeRate())
-		r.Logf("%s -> increased=%v err=%v rate=%d", what, inc, err, cur)
+		dlog(r, "%s -> increased=%v err=%v rate=%d", what, inc, err, cur)
 		if err != nil && !errors.Is(err, sweep.ErrMaxPosition) {
 			r.Fail("feefn-error", "%s returned unexpected error %v", what, err)
 		}
 		if cur < old {
 			r.Fail("feefn-decreased", "%s lowered the fee rate from %d to %d sat/kw (ceiling %d)", what, old, cur, end)
 		}
-		if cur > end && !callerAbove {
+		if cur > end {
 			r.Fail("feefn-above-ceiling", "%s raised the fee rate to %d sat/kw above the ceiling %d", what, cur, end)
 		}
 		if err == nil && inc != (cur > old) {
 			r.Fail("feefn-increase-flag", "%s reports increased=%v but the rate went %d -> %d", what, inc, old, cur)
 		}
-		if (atDL || errors.Is(err, sweep.ErrMaxPosition)) && cur != end && !callerAbove {
+		if (atDL || errors.Is(err, sweep.ErrMaxPosition)) && cur != end {
 			r.Fail("feefn-ceiling-not-reached", "%s (err=%v): one block before the deadline or later, the rate is %d sat/kw, not the ceiling %d", what, err, cur, end)
 		}
 		if cur > old {
@@ -217,6 +216,26 @@ func runFeeFunction(r *simcore.Run) {
 			reached = true
 		}
 		r.State(fmt.Sprintf("ct=%d pos=%v", bucket(int64(lastCT)), cur == end))
+	}
+	// Wind-down (no draws): the block one before the deadline arrives.
+	{
+		old := cur
+		_, err := f.IncreaseFeeRate(1)
+		cur = int64(f.FeeRate())
+		dlog(r, "wind-down IncreaseFeeRate(1) -> err=%v rate=%d", err, cur)
+		if err != nil && !errors.Is(err, sweep.ErrMaxPosition) {
+			r.Fail("feefn-error", "IncreaseFeeRate(1) returned unexpected error %v", err)
+		}
+		if cur < old {
+			r.Fail("feefn-decreased", "IncreaseFeeRate(1) lowered the fee rate from %d to %d sat/kw (ceiling %d)", old, cur, end)
+		}
+		if cur != end {
+			r.Fail("feefn-ceiling-not-reached", "IncreaseFeeRate(1) (err=%v): one block before the deadline the rate is %d sat/kw, not the ceiling %d (start %d, initial conf target %d)", err, cur, end, startVal, ct)
+		}
+		if cur > old {
+			increases++
+		}
+		reached = true
 	}
 	r.Add("feefn_increases", int64(increases))
 	if reached {
